@@ -432,16 +432,55 @@ def rule_empty(model):
 def _push_fragment(model, fi, lp):
     """Per-item statements from the element type test up to (excluding) the
     statement that renders the section."""
+    import copy
+    # the element variable and its copies; the variable holding its type
+    elem = set()
+    for st in ast.walk(lp):
+        if isinstance(st, ast.Assign) and len(st.targets) == 1 and \
+                isinstance(st.targets[0], ast.Name):
+            v = st.value
+            if (isinstance(v, ast.Subscript) and
+                    norm(v.slice) == norm(lp.target)) or (
+                    isinstance(v, ast.Call) and len(v.args) == 2 and
+                    norm(v.args[1]) == norm(lp.target)):
+                elem.add(st.targets[0].id)
+    for _ in range(3):
+        for st in ast.walk(lp):
+            if isinstance(st, ast.Assign) and len(st.targets) == 1 and \
+                    isinstance(st.targets[0], ast.Name) and \
+                    isinstance(st.value, ast.Name) and st.value.id in elem:
+                elem.add(st.targets[0].id)
+    tvars = set()
+    for st in ast.walk(lp):
+        if isinstance(st, ast.Assign) and len(st.targets) == 1 and \
+                isinstance(st.targets[0], ast.Name) and \
+                isinstance(st.value, ast.Call) and \
+                norm(st.value.func) == 'type' and st.value.args and \
+                norm(st.value.args[0]) in elem:
+            tvars.add(st.targets[0].id)
+    mapping = {e: ast.Name(id='client', ctx=ast.Load()) for e in elem}
+    mapping.update({t: ast.Name(id='t', ctx=ast.Load()) for t in tvars})
+
+    class _Canon(ast.NodeTransformer):
+        def visit_Name(self, node):
+            if node.id in mapping:
+                return ast.copy_location(
+                    ast.Name(id=mapping[node.id].id, ctx=node.ctx), node)
+            return node
     out = []
     take = False
     for st in lp.body:
         if any(isinstance(c, ast.Call) and '_DocumentTemplate:render_blocks'
                in model.callee_names(c, fi) for c in ast.walk(st)):
             break
-        if isinstance(st, ast.Assign) and 'type(client)' in norm(st):
+        st2 = _Canon().visit(copy.deepcopy(st))
+        if isinstance(st2, ast.Assign) and 'type(client)' in norm(st2):
             take = True
         if take:
-            out.append(st)
+            if isinstance(st2, ast.Assign) and \
+                    norm(st2) == 'client = client':
+                continue
+            out.append(st2)
     return out
 
 
@@ -640,7 +679,19 @@ def rule_twins(model):
     return r
 
 
-RULES = [rule_index, rule_prefix, rule_providers, rule_empty, rule_twins]
+def _inl(rule):
+    """The loop / emptiness / push-decision rules follow paths through the
+    two renderers: they run on the view in which helpers that are new
+    w.r.t. the reference tree are inlined (normalise.N2)."""
+    def run(model):
+        return rule(model.inlined_view())
+    run.__name__ = rule.__name__
+    return run
+
+
+RULES = [_inl(rule_index), _inl(rule_prefix), _inl(rule_providers),
+         _inl(rule_empty),
+         _inl(rule_twins)]
 EXPLANATION = (
     'Loop-bound agreement (linear forms) for index uses and first/last '
     'markers; store-site query for prefix-aware keys; provider table for '
